@@ -20,6 +20,8 @@ for pid in ids:
 earlier = {}
 for m in sorted(glob.glob("/verif/seeded/*/meta.json")):
     d = json.load(open(m))
+    if "property" not in d:
+        continue
     w = " ".join(d.get("what", "").split())
     earlier.setdefault(d["property"], []).append(w[:230] + ("…" if len(w) > 230 else ""))
 groups = [[ids[i], ids[i + 6], ids[i + 12]] for i in range(6)]
